@@ -274,7 +274,7 @@ def load_known():
 # Which enumeration plan a tier runs.  The tier names the registered command (and the deadline); the plan names the bounds.
 # Checks whose former thorough plan completes in well under a minute run it on every change, and their thorough tier
 # runs the "deep" plan (the thorough plan plus the extensions marked `plan == "deep"` in the check).
-FAST = ("C08", "C09", "C10", "C12", "C13", "C14")
+FAST = ("C08", "C09", "C10", "C12", "C13", "C14", "C17", "C18", "C20")
 
 
 def plan_of(prop, tier):
